@@ -15,7 +15,29 @@ def chk(pid, technique, text, note, design):
         'technique': technique,
     }
 
+ZN = 'Trusts zonemodel.h/posixref.h/refcal.h (independent RFC 9636 reader + POSIX rule evaluator, 128-bit calendar), cross-checked at setup against glibc localtime_r; synthetic zones are limited to domain W (DESIGN.md 3.3); recorded known findings are excluded by input class and counted.'
 CHECKS = [
+ chk('C01', 'reference-model differential: exhaustive anchor sweep over shipped + zic-compiled zones, rapidcheck-generated TZif files (domain W)',
+     'lookup(time_point) vs an independent TZif/POSIX model at every table entry (recorded, each of the 403 rule-table years, 400-year images up to the last representable year, sentinels) x deltas, on all 598 shipped files, zic-compiled random zic sources (slim+fat) and generated v1-v4 files; load success of every in-domain file.',
+     ZN, 'DESIGN.md §5 C01'),
+ chk('C02', 'reference-model differential (brute-force civil->instant) on anchored civil seconds; rapidcheck-generated zones',
+     'lookup(civil_second) kind/pre/trans/post vs brute-force enumeration of the instants displaying the civil second, clamped in 128-bit: every second of short gaps/overlaps, edges +-2 s of long ones, seam/far/final rule years, civil min/max.',
+     ZN, 'DESIGN.md §5 C02'),
+ chk('C03', 'round-trip relation on anchored instants and civil seconds; rapidcheck-generated zones',
+     'lookup(lookup(t).cs) must recover t (UNIQUE pre==t or REPEATED t in {pre,post}); every instant returned for a civil second must display it. No model needed for the verdict (model only classifies known-finding inputs).',
+     ZN, 'DESIGN.md §5 C03'),
+ chk('C06', 'monotonicity relation on sorted generated civil sequences',
+     'convert(civil) non-decreasing along one sorted sequence per zone containing every gap/overlap neighbourhood, adjacent pairs, seam and far years, civil min/max, walked ascending and descending.',
+     ZN, 'DESIGN.md §5 C06'),
+ chk('C10', 'boundary sweep under ASan/UBSan + model differential with 128-bit clamping',
+     'all four operations at the outermost 2 days of both ranges, +-2^59, +-2^31, +-2^62 and table-congruent 400-year multiples, civil min/max and lookup(max/min).cs neighbourhoods, in every zone incl. fixed +-24h; sanitizer-clean and equal to the clamped model.',
+     ZN, 'DESIGN.md §5 C10'),
+ chk('C11', 'reference-model differential for next/prev_transition + chain symmetry',
+     'next/prev at T-1,T,T+1 of every table entry vs the model\'s nearest real change (no-ops, big-bang entry, isdst-only/abbr-only changes, twin types generated on purpose); from/to vs lookup(); forward chain from min() equals reversed backward chain from max().',
+     ZN + ' The point where rule-generated transitions stop being reported is documented as unspecified and treated so.', 'DESIGN.md §5 C11'),
+ chk('C14', 'hint-state enumeration + rapidcheck call sequences against a fresh copy + cache model with counting data source',
+     'every table interval is made the remembered hint before each probe (both directions) and answers compared with the history-free model; generated call sequences answered in order vs a fresh copy in reverse order; generated load() sequences checked against a name-cache model.',
+     ZN, 'DESIGN.md §5 C14'),
  chk('C04', 'rapidcheck generated fields + exhaustive 146097-day base vs 128-bit reference normalization, under UBSan',
      'Six int64 fields from an anchored mixture, year drawn inside the exactly computed admissible interval (edges included); '
      'all six civil types, all 36 alignment conversions and operator<< compared with refcal; UBSan turns intermediate overflow into a failure.',
